@@ -41,7 +41,7 @@ type BetaDistribution struct {
 /* -------------------------------------------------------------------------- */
 
 func NewBetaDistribution(alpha, beta Scalar, logScale bool) (*BetaDistribution, error) {
-  if alpha.GetFloat64() <= 0.0 || beta.GetFloat64() <= 0.0 {
+  if !(alpha.GetFloat64() > 0.0) || !(beta.GetFloat64() > 0.0) {
     return nil, fmt.Errorf("invalid parameters")
   }
   t := alpha.Type()
